@@ -254,6 +254,56 @@ class Gen:
             ra2, dec2 = [ra0 % 360.0], [dec0]
         return norm_ra(ra1), np.array(dec1), norm_ra(ra2), np.array(dec2), 'edges' if only is None else 'edges-' + only
 
+    def decspan(self, L, cs, allsky=False):
+        """Pairs separated in declination across one and two slice boundaries of a pole-clipped grid.  Where the
+        padded declination range of the first list runs past a pole the same number of slices is squeezed into a
+        shorter range (slice height down to about half the chunk size), so a margin below the chunk size can span
+        two slices.  Boundaries are read from the real chunks object; chunk sizes 1.01 .. 2 x L."""
+        rng = self.rng
+        sgn = rng.choice([-1, 1])
+        if allsky:
+            n = rng.randint(6, 14)
+            dec1 = [sgn * rng.uniform(86.0, 89.5), -sgn * rng.uniform(84.0, 89.5)] + \
+                   [math.degrees(math.asin(rng.uniform(-0.98, 0.98))) for _ in range(n)]
+            ra1 = [rng.uniform(0, 360) for _ in dec1]
+        else:
+            top = rng.choice([89.9, 89.0, 88.0, 90.0 - 0.3 * cs])
+            top = max(top, 90.0 - 1.4 * cs)                    # close enough to the pole for the grid to be clipped
+            span = rng.choice([0.3, 1.2, 2.5, 4.8]) * cs
+            low = max(top - span, -60.0)
+            dec1 = [sgn * top, sgn * low] + [sgn * rng.uniform(low, top) for _ in range(rng.randint(1, 3))]
+            ra0 = rng.uniform(0, 360)
+            ra1 = [ra0 + rng.choice([0.0, rng.uniform(-60, 60), rng.uniform(0, 360)]) for _ in dec1]
+        ra1 = list(norm_ra(ra1))
+        try:
+            c = real_chunks(ra1, dec1, cs)
+        except Exception:
+            return norm_ra(ra1), np.array(dec1), norm_ra([ra1[0]]), np.array([dec1[0] - sgn * 0.5 * L]), 'decspan-noframe'
+        dmin, dmax = min(dec1), max(dec1)
+        ra2, dec2 = [], []
+        tries = 0
+        while len(ra1) < self.nmax and tries < 300:
+            tries += 1
+            i = rng.randrange(c.nDec)
+            lo, hi = float(c.decBounds[i]), float(c.decBounds[i + 1])
+            up = rng.choice([True, False])
+            eps = rng.choice([1e-9, 1e-6, 1e-3, 0.02, 0.2]) * (hi - lo)
+            dq = (hi - eps) if up else (lo + eps)                # first-list point just inside slice i
+            if not (dmin <= dq <= dmax):
+                continue
+            d = L * rng.choice([0.9, 0.95, 0.99, 0.999, 0.9999])  # second-list point across one or two boundaries
+            rq = rng.uniform(0, 360)
+            rp, dp = dest(rq, dq, (0.0 if up else 180.0) + rng.choice([0.0, 0.0, rng.uniform(-8, 8)]), d)
+            if abs(dp) >= 89.999:
+                continue
+            ra1.append(rq)
+            dec1.append(dq)
+            ra2.append(rp)
+            dec2.append(dp)
+        if not ra2:
+            ra2, dec2 = [ra1[0]], [dec1[0] - sgn * 0.5 * L]
+        return norm_ra(ra1), np.array(dec1), norm_ra(ra2), np.array(dec2), 'decspan-allsky' if allsky else 'decspan'
+
     def polecap(self, L, cs):
         """A few points, one of them close to the north pole: the declination grid is clamped at +90."""
         rng = self.rng
@@ -443,6 +493,22 @@ def make_calls(ctx):
         calls.append({'set': sid, 'tag': tag, 'ra1': ra1, 'dec1': dec1, 'ra2': ra2, 'dec2': dec2, 'L': L,
                       'cs': rng.choice([None, 4.0 * L, 2.5 * L]), 'k': 0, 'perm': None})
         sid -= 1
+    # declination reach over squeezed slices (pole-clipped grids, chunk size 1.01 .. 2 x match length, both hemispheres)
+    spans = [(9.0, 10.0 / 9.0, False), (20.0, 1.05, True), (3.0, 1.01, False), (1.0, 1.3, False), (10.0, 1.6, True), (5.0, 2.0, False)]
+    if not ctx.quick:
+        spans += [(L, f, a) for L in (0.5, 2.0, 6.0, 15.0, 25.0) for f in (1.01, 1.1, 1.3, 1.6, 2.0) for a in (False, True)
+                  if not (a and L < 5.0)]
+    for L, f, a in spans:
+        for rep in range(1 if ctx.quick else 2):
+            cs = f * L
+            ra1, dec1, ra2, dec2, tag = g.decspan(L, cs, allsky=a)
+            if est_cells(ra1, dec1, cs) > MAXCELLS:
+                continue
+            perm = (rng.sample(range(len(ra1)), len(ra1)), rng.sample(range(len(ra2)), len(ra2)))
+            for k, pm in ((0, None), (0, perm), (rng.choice([1, 2]), None)):
+                calls.append({'set': sid, 'tag': tag + ('+perm' if pm else ''), 'ra1': ra1, 'dec1': dec1, 'ra2': ra2, 'dec2': dec2,
+                              'L': L, 'cs': cs, 'k': k, 'perm': pm})
+            sid -= 1
     for s in range(nsets):
         drv = drivers[s % len(drivers)]
         L = LENGTHS[(s // len(drivers) + s) % len(LENGTHS)] if rng.random() < 0.7 else min(30.0, rng.choice(LENGTHS) * rng.uniform(0.5, 1.5))
@@ -730,12 +796,12 @@ def replay_greedy(ctx, cfg):
 def lattice_chunks(g):
     """A real chunks object laid over the model's lattice: ring = 0..360 in nc cells, flat (cos = 1)."""
     from pydl.pydlutils.spheregroup import chunks
-    nc, nb, s = g['nc'], g['nb'], g['s']
+    nc, nb, s, hb = g['nc'], g['nb'], g['s'], g['h']
     u = 360.0 / (nc * s)
     c = chunks.__new__(chunks)
     c.minSize = s * u
     c.nDec = nb
-    c.decBounds = np.arange(nb + 1, dtype='d') * (s * u)
+    c.decBounds = np.arange(nb + 1, dtype='d') * (hb * u)      # slices hb <= s high (squeezed at a pole)
     c.nRa = [nc] * nb
     c.raBounds = [360.0 * np.arange(nc + 1, dtype='d') / float(nc) for _ in range(nb)]
     c.raOffset = 0.0
@@ -744,6 +810,9 @@ def lattice_chunks(g):
     c.nChunkMax = 0
     c.cosDecMin = lambda i: 1.0
     return c, u
+
+
+_LOOK = {}
 
 
 def run_hash(g, p, points):
@@ -758,13 +827,16 @@ def run_hash(g, p, points):
         for a in range(c.nRa[b]):
             if c.chunkList[b][a]:
                 count[(a, b)] = len(c.chunkList[b][a])
-    look = {}
-    for q in points:
-        try:
-            look[q] = tuple(int(v) for v in c.get(q[0] * u, q[1] * u))
-        except Exception as ex:
-            return {'exc': 'get: %s: %s' % (type(ex).__name__, ex)}
-    return {'exc': None, 'count': count, 'look': look}
+    key = (g['nc'], g['nb'], g['s'], g['h'])        # get() does not depend on the point entered
+    if key not in _LOOK:
+        look = {}
+        for q in points:
+            try:
+                look[q] = tuple(int(v) for v in c.get(q[0] * u, q[1] * u))
+            except Exception as ex:
+                return {'exc': 'get: %s: %s' % (type(ex).__name__, ex)}
+        _LOOK[key] = look
+    return {'exc': None, 'count': count, 'look': _LOOK[key]}
 
 
 def replay_hash(ctx, cfg):
@@ -781,12 +853,12 @@ def replay_hash(ctx, cfg):
             continue        # a "margin" of 90 degrees or more has no flat counterpart on the sphere
         nrun += 1
         p = tuple(h['p'])
-        pts = [(x, y) for x in range(g['nc'] * g['s']) for y in range(g['nb'] * g['s'])]
+        pts = [(x, y) for x in range(g['nc'] * g['s']) for y in range(g['nb'] * g['h'])]
         obs = run_hash(g, p, pts)
         ctx.evaluated(1, 'hash-replay')
         ctx.validated()
         if len(h['cells']) > 1:
-            ctx.nontriv(('hash', g['nc'], g['nb'], g['s'], g['m'], p))
+            ctx.nontriv(('hash', g['nc'], g['nb'], g['s'], g['h'], g['m'], p))
         why = None
         if obs['exc']:
             why = obs['exc']
@@ -799,10 +871,10 @@ def replay_hash(ctx, cfg):
             elif any(v != 1 for v in obs['count'].values()):
                 why = 'entered more than once: %s' % obs['count']
             else:
-                wrong = [q for q in pts if obs['look'][q] != (q[0] // g['s'], q[1] // g['s'])]
+                wrong = [q for q in pts if obs['look'][q] != (q[0] // g['s'], q[1] // g['h'])]
                 if wrong:
                     why = 'get() looks %s up in %s' % (wrong[0], obs['look'][wrong[0]])
-        if nrun % 400 == 1:
+        if nrun % 2000 == 1:
             ctx.sample({'hash_case': {'g': g, 'p': p, 'tlc_cells': sorted(map(tuple, h['cells']))}, 'observed_cells': sorted(obs.get('count', {}))})
         if why:
             nbad += 1
@@ -949,6 +1021,7 @@ def run(ctx):
     replay_hash(ctx, 'MC_SphereMatch_hash_quick.cfg' if ctx.quick else 'MC_SphereMatch_hash_thorough.cfg')
     negative_control(ctx, 'MC_SphereMatch_hash_nowrap.cfg', 'C04_HashComplete')
     negative_control(ctx, 'MC_SphereMatch_hash_noguard.cfg', 'C04_HashOnce')
+    negative_control(ctx, 'MC_SphereMatch_hash_onestep.cfg', 'C04_HashComplete')
     # ---- code -> spec
     calls = make_calls(ctx)
     check_calls(ctx, calls, 'Trace_SphereMatch')
@@ -975,7 +1048,7 @@ def replay(ctx, case):
         return
     if kind == 'hash':
         g = case['g']
-        pts = [(x, y) for x in range(g['nc'] * g['s']) for y in range(g['nb'] * g['s'])]
+        pts = [(x, y) for x in range(g['nc'] * g['s']) for y in range(g['nb'] * g['h'])]
         obs = run_hash(g, tuple(case['p']), pts)
         print('replayed hash case; observed cells:', obs.get('count', obs['exc']), '\nneeded:', case['need'], 'allowed:', case['allow'])
         cells = set(obs.get('count', {}))
